@@ -343,6 +343,91 @@ func RunConfig(c *Ctx) error {
 			c.Tr.Emit("CfgRoundTrip", world.F{"ok": ok, "diff": diff + " (" + l.path + " = " + leafString(&one, l) + ")"})
 		}
 	}
+	// ... and of configurations in which TWO options at a time differ from their defaults, in both value orders (what is
+	// done to one option because of another one - a clamp, a derived default - shows only in pairs)
+	{
+		nbad, npairs, first := 0, 0, ""
+		for i := range leaves {
+			for j := i + 1; j < len(leaves); j++ {
+				for _, classes := range [][2]string{{"F", "F2"}, {"F2", "F"}} {
+					removeFile()
+					two := config.DefaultConfig
+					if two.Instrumentation != nil {
+						cp := *two.Instrumentation
+						two.Instrumentation = &cp
+					}
+					d := config.DefaultConfig
+					setLeaf(&two, leaves[i], classes[0], leafString(&d, leaves[i]))
+					setLeaf(&two, leaves[j], classes[1], leafString(&d, leaves[j]))
+					npairs++
+					ok := writeFile(two) == nil
+					diff := ""
+					if ok {
+						back, err := load(nil)
+						ok = err == nil
+						for _, l2 := range leaves {
+							if ok && leafString(&back, l2) != leafString(&two, l2) {
+								ok, diff = false, l2.path
+							}
+						}
+					}
+					if !ok {
+						nbad++
+						if first == "" {
+							first = fmt.Sprintf("%s (with %s = %s, %s = %s)", diff, leaves[i].path, leafString(&two, leaves[i]), leaves[j].path, leafString(&two, leaves[j]))
+						}
+					}
+				}
+			}
+		}
+		c.Tr.Emit("CfgRoundTrip", world.F{"ok": nbad == 0, "diff": fmt.Sprintf("%d of %d option pairs; first: %s", nbad, npairs, first)})
+		// ... and a mode switch together with two quantities of the same kind in either order (a relation between
+		// two values that only matters in one mode)
+		nbad, npairs, first = 0, 0, ""
+		for _, b := range leaves {
+			if b.kind != "bool" {
+				continue
+			}
+			for i := range leaves {
+				for j := i + 1; j < len(leaves); j++ {
+					if leaves[i].kind != leaves[j].kind || leaves[i].kind == "bool" || leaves[i].kind == "string" {
+						continue
+					}
+					for _, classes := range [][2]string{{"F", "F2"}, {"F2", "F"}} {
+						removeFile()
+						three := config.DefaultConfig
+						if three.Instrumentation != nil {
+							cp := *three.Instrumentation
+							three.Instrumentation = &cp
+						}
+						d := config.DefaultConfig
+						setLeaf(&three, b, "F", leafString(&d, b))
+						setLeaf(&three, leaves[i], classes[0], leafString(&d, leaves[i]))
+						setLeaf(&three, leaves[j], classes[1], leafString(&d, leaves[j]))
+						npairs++
+						ok := writeFile(three) == nil
+						diff := ""
+						if ok {
+							back, err := load(nil)
+							ok = err == nil
+							for _, l2 := range leaves {
+								if ok && leafString(&back, l2) != leafString(&three, l2) {
+									ok, diff = false, l2.path
+								}
+							}
+						}
+						if !ok {
+							nbad++
+							if first == "" {
+								first = fmt.Sprintf("%s (with %s = %s, %s = %s, %s = %s)", diff, b.path, leafString(&three, b), leaves[i].path, leafString(&three, leaves[i]), leaves[j].path, leafString(&three, leaves[j]))
+							}
+						}
+					}
+				}
+			}
+		}
+		c.Tr.Emit("CfgRoundTrip", world.F{"ok": nbad == 0, "diff": fmt.Sprintf("%d of %d (switch, quantity, quantity) triples; first: %s", nbad, npairs, first)})
+	}
 	removeFile()
 	// the same command object loads, the file is rewritten (every option changed), the same command loads again:
 	// the second result is what the second file says (a node that re-reads its configuration, an init followed by
